@@ -95,6 +95,8 @@ func (m *Plugin) generateSingleFile(data *codegen.Data) error {
 
 	if fileExists(data.Config.Resolver.Filename) {
 		file.name = data.Config.Resolver.Filename
+		// the template re-emits the empty root resolver struct; only an edited one is left-over code
+		rewriter.MarkEmptyStructCopied(data.Config.Resolver.Type)
 		file.imports = rewriter.ExistingImports(file.name)
 		file.RemainingSource = rewriter.RemainingSource(file.name)
 	}
